@@ -92,6 +92,43 @@ Fixpoint read_hills (fuel : nat) (nv : nat) (s : mstream) : mstream * bool :=
     end
   end.
 
+(* num_hills_read of the same loop: the records that read_hill() accepted *)
+Fixpoint count_hills (fuel : nat) (nv : nat) (s : mstream) : nat :=
+  match fuel with
+  | O => O
+  | S f =>
+    match read_string s with
+    | (RBytes k, s1) =>
+      if bytes_eqb k kw_hill then
+        match read_fields s1 (hill_fields nv) with
+        | Some (_, s2) => S (count_hills f nv s2)
+        | None => O
+        end
+      else O
+    | (_, _) => O
+    end
+  end.
+
+(* "numHills <n>" in the configuration string of a metadynamics state (absent from states written before the
+   number was added): the decimal number after the first occurrence of the keyword *)
+Definition kw_numhills : list byte := [110;117;109;72;105;108;108;115;32].
+Fixpoint starts_with (pat l : list byte) : option (list byte) :=
+  match pat, l with
+  | [], _ => Some l
+  | x :: pat', y :: l' => if x =? y then starts_with pat' l' else None
+  | _, [] => None
+  end.
+Fixpoint parse_digits (l : list byte) (acc : nat) : nat :=
+  match l with
+  | c :: r => if (48 <=? c) && (c <=? 57) then parse_digits r (10 * acc + N.to_nat (c - 48)) else acc
+  | [] => acc
+  end.
+Fixpoint find_numhills (l : list byte) : option nat :=
+  match starts_with kw_numhills l with
+  | Some rest => Some (parse_digits rest 0)
+  | None => match l with _ :: r => find_numhills r | [] => None end
+  end.
+
 Record bbias := mkBB {
   bb_kw : list byte;      (* state_keyword *)
   bb_type : list byte;    (* bias_type *)
@@ -111,6 +148,8 @@ Section BinReader.
   Variable matches : bbias -> list byte -> option bool.
   (* set_state_params(conf) == COLVARS_OK *)
   Variable params_ok : bbias -> list byte -> bool.
+  (* state_num_hills: the number of hills the configuration string announces, if it does *)
+  Variable expected_hills : bbias -> list byte -> option nat.
 
   (* cvm::memory_stream &colvar::read_state(cvm::memory_stream &is): None = failbit + cvm::error *)
   Definition cv_read (s : mstream) : option mstream :=
@@ -121,12 +160,19 @@ Section BinReader.
 
   (* read_state_data(is): None = a key or a grid value could not be read (the readers call cvm::error and the
      stream fails: raise_error_rewind in the caller) *)
-  Definition read_data (b : bbias) (s : mstream) : option (mstream * bool) :=
+  Definition read_data (b : bbias) (conf : list byte) (s : mstream) : option (mstream * bool) :=
     match read_fields s (bb_fields b) with
     | None => None
     | Some (_, s1) =>
       match bb_kind b with
-      | S O => Some (read_hills (S (length (ms_buf s1))) (bb_nvar b) s1)
+      | S O =>
+        let fuel := S (length (ms_buf s1)) in
+        (* if ((state_num_hills >= 0) && (num_hills_read != state_num_hills)) error + failbit *)
+        match expected_hills b conf with
+        | Some n => if Nat.eqb (count_hills fuel (bb_nvar b) s1) n
+                    then Some (read_hills fuel (bb_nvar b) s1) else None
+        | None => Some (read_hills fuel (bb_nvar b) s1)
+        end
       | _ => Some (s1, false)
       end
     end.
@@ -143,7 +189,7 @@ Section BinReader.
           | Some false => BSkip                       (* rewound, stream good, no error *)
           | Some true =>
             if params_ok b conf then
-              match read_data b s2 with
+              match read_data b conf s2 with
               | Some (s3, e) => BOk s3 e
               | None => BErr
               end
@@ -203,4 +249,4 @@ End BinReader.
 
 (* the instance run against the C++: a valid state's own configuration (names match, parameters parse) *)
 Definition load_bin_c (ncv : nat) (bs : list bbias) (data : list byte) : bool :=
-  load_bin (fun _ => true) (fun _ _ => Some true) (fun _ _ => true) ncv bs data.
+  load_bin (fun _ => true) (fun _ _ => Some true) (fun _ _ => true) (fun _ conf => find_numhills conf) ncv bs data.
